@@ -174,10 +174,12 @@ def aggregateOne (cfg : Cfg) (prev : Outcome) (streamObs : GoMap Nat (List (Opti
     | .err _ => .ok aggs      -- aggregation failed: keep what was copied (if anything)
     | .panic => .panic
 
+/-- the nested loops `for _, cd := range defs { for _, strm := range cd.Streams {…} }` visit the
+    streams of all definitions in order: a fold over the flattened stream list -/
 def aggregateAll (cfg : Cfg) (prev : Outcome) (streamObs : GoMap Nat (List (Option SV)))
     (defs : List (Nat × ChanDef)) : GoRes (GoMap (Nat × Nat) SV) :=
-  defs.foldl (fun acc e =>
-    e.2.streams.foldl (fun acc s => acc.bind fun aggs => aggregateOne cfg prev streamObs aggs s.sid s.agg) acc) (.ok [])
+  (defs.flatMap (·.2.streams)).foldl
+    (fun acc s => acc.bind fun aggs => aggregateOne cfg prev streamObs aggs s.sid s.agg) (.ok [])
 
 /-- promotion: previous stage is staging and some observation carried a verified attestation -/
 def promotedBy (prev : Outcome) (t : Tally) : Bool := prev.stage == stageStaging && t.validRR.isSome
